@@ -47,3 +47,35 @@ check('C15',
       TRUSTED + '"strictly decreases" is read for A != B (it contradicts "0 exactly when equal" otherwise).',
       'TLA+ spec (Jaccard axioms) checked exhaustively by TLC; TLC judges reported distances of the real code',
       'DESIGN.md 5 (C15)')
+
+check('C10',
+      'Exhaustive TLC model check of the incremental trunk algorithm of consensus_taxon (as repaired) against the definitional '
+      'consensus (tip, else LCA of tips, else none) for every forest with <=4 (quick) / <=5 (thorough) taxa, every duplicate-free '
+      'ordered selection of <=4 matched taxa, plus the negative control (algorithm as found: TLC finds the order dependence); '
+      'conformance: TLC judges consensus_taxon on real Taxon objects for every such ordered selection, classify(strict=True) under '
+      'EVERY permutation of the reference list on all small scenarios and on seeded random deeper forests: consensus, failed flag, '
+      'comparability, warning presence and named taxa, admissible primary match, and equality of the outcome across permutations.',
+      TRUSTED + 'Distances/thresholds abstracted to ranks; warning recognised by its text.',
+      'TLA+ spec (Taxonomy, Classify, ConsensusAlgo) model-checked with TLC incl. negative control; TLC judges real classify() results over all reference orders',
+      'DESIGN.md 5 (C10)')
+
+check('C03',
+      'Exhaustive TLC model check of the three lineage walks (matching_taxon, next_taxon as repaired, reportable_taxon) against the '
+      'definitions for all forests of 3 (quick) / 4 (thorough) taxa x all threshold assignments x report flags x genome taxon x '
+      'distance rank, with the monotonicity and next-shape theorems and a negative control (next_taxon as found); conformance: TLC '
+      'judges classify / GenomeMatch / get_result_item results on real ORM objects for every forest <=3/4 taxa x thresholds '
+      '{none, 0, 1, 2} swept through all distance ranks (exact threshold hits incl. 0.0), all 2/3-genome scenarios with ties, and '
+      'seeded random deep forests.',
+      TRUSTED + 'Distances/thresholds abstracted to ranks (r/16, exact in float32 and float64).',
+      'TLA+ spec (Classify, ClassifyAlgo) model-checked with TLC incl. negative control; TLC judges real classification results',
+      'DESIGN.md 5 (C03)')
+
+check('C09',
+      'TLC model check that a stable sort prefix equals the (distance, reference order) prefix and starts with the first index of '
+      'the minimum, for all distance-rank vectors up to length 4/5, with an unstable-sort negative control; conformance: TLC judges '
+      'the closest_genomes list of get_result_item for every rank vector of length <=5/6 x several N, and for seeded heavy-tie '
+      'vectors of length 1..64 and 200..300, in-process and in fresh interpreters with AVX512 and AVX512+AVX2 dispatch disabled, '
+      'twice each: order, exact distances, per-entry taxon, first entry == closest match.',
+      TRUSTED + 'Only the instruction sets of this CPU can be toggled.',
+      'TLA+ spec (Classify!ClosestList, ClosestAlgo) model-checked with TLC; TLC judges lists produced under several CPU-dispatch settings',
+      'DESIGN.md 5 (C09)')
